@@ -172,4 +172,497 @@ Section Model.
           -- exfalso. destruct MIN as [M | M]; rewrite M in Q; congruence.
           -- apply RC. exists a0, b0. auto.
   Qed.
+
+  (** ** One pair of lifetimes *)
+
+  (** [t'] has at least the cells of [t], and every model of [t'] is a model of [t] *)
+  Definition keeps (t t' : table) : Prop := forall v, (exists c, get t v = Some c) -> exists c', get t' v = Some c'.
+  Definition mono (t t' : table) : Prop := (respects t' -> respects t) /\ keeps t t'.
+
+  Lemma mono_refl t : mono t t.
+  Proof. split; [auto | intros v H; exact H]. Qed.
+
+  Lemma mono_trans t1 t2 t3 : mono t1 t2 -> mono t2 t3 -> mono t1 t3.
+  Proof. intros [A B] [C E]. split; [auto | intros v H; apply E; apply B; exact H]. Qed.
+
+  Lemma keeps_set_value c val t : keeps t (set_value c val t).
+  Proof. intros v (c0 & E). rewrite get_set_value, E. cbn [option_map]. eauto. Qed.
+
+  Lemma keeps_merge ca cb val t : keeps t (merge ca cb val t).
+  Proof. intros v (c0 & E). rewrite get_merge, E. cbn [option_map]. eauto. Qed.
+
+  Definition lstep (v : variance) (a0 b0 : tm) (t t' : table) (gs : list tm) : Prop :=
+    ltinv t' /\ mono t t' /\ (respects t -> ((respects t' /\ sat_goals gs) <-> vrel v (ρ a0) (ρ b0))).
+
+  Lemma closed_ltu_inv a : closed_ltu a = true -> closed_lt a = true \/ exists v, a = lt_var v.
+  Proof.
+    unfold closed_ltu. intros H. apply orb_true_iff in H. destruct H as [H | H]; [auto |].
+    destruct a as [| | h cs]; try discriminate H. destruct h; try discriminate H. destruct cs; [| discriminate H]. right. exists v. reflexivity.
+  Qed.
+
+  Lemma norm_lt t a0 : closed_ltu a0 = true -> ltinv t ->
+    (respects t -> eqv (ρ a0) (ρ (shallow1 t a0)))
+    /\ (closed_lt (shallow1 t a0) = true \/ exists va, shallow1 t a0 = lt_var va /\ (forall c, get t va = Some c -> exists u, cval c = Unbound u)).
+  Proof.
+    intros CA [IC IB]. destruct (closed_ltu_inv _ CA) as [CL | (v & ->)].
+    - unfold shallow1. rewrite (probe_closed_lt t a0 CL). split; [intros _; apply eqv_refl | auto].
+    - unfold shallow1, lt_var. cbn [probe_tm]. destruct (get t v) as [c |] eqn:E.
+      + destruct (cval c) as [u | l] eqn:B.
+        * split; [intros _; apply eqv_refl |]. right. exists v. split; [reflexivity |]. intros c' E'. rewrite E in E'. inversion E' as [Q]. rewrite <- Q. exists u. exact B.
+        * split; [intros [RB _]; apply RB; exists c; auto | left; exact (IB v c l E B)].
+      + split; [intros _; apply eqv_refl |]. right. exists v. split; [reflexivity |]. intros c' E'. rewrite E in E'. discriminate E'.
+  Qed.
+
+  Lemma lstep_same v a b t : ltinv t -> (respects t -> vrel v (ρ a) (ρ b)) -> lstep v a b t t [].
+  Proof.
+    intros I H. split; [exact I |]. split; [apply mono_refl |]. intros R. split; [intros _; apply H; exact R | intros _; split; [exact R | intros x y []]].
+  Qed.
+
+  Lemma lstep_push v a b t : ltinv t ->
+    lstep v a b t t (match v with Covariant => [outlives_goal b a] | Contravariant => [outlives_goal a b] | Invariant => [outlives_goal a b; outlives_goal b a] end).
+  Proof.
+    intros I. split; [exact I |]. split; [apply mono_refl |]. intros R. rewrite <- sat_push. tauto.
+  Qed.
+
+  Lemma is_inv_true v : is_inv v = true -> v = Invariant.
+  Proof. destruct v; try discriminate; reflexivity. Qed.
+
+  Lemma vrel_inv_eqv a b : vrel Invariant a b <-> eqv a b.
+  Proof. reflexivity. Qed.
+
+  (** [unify_lifetime_var] on an unbound unknown and a closed lifetime *)
+  Lemma unify_lt_u v va b vu t r t' gs :
+    ltinv t -> (forall c, get t va = Some c -> exists u, cval c = Unbound u) -> closed_lt b = true ->
+    unify_lifetime_var v va b vu t = (Done r, t', gs) -> lstep v (lt_var va) b t t' gs.
+  Proof.
+    intros I UB CB H. unfold unify_lifetime_var in H.
+    apply bind_inv in H. destruct H as (c & t2 & g2 & g3 & H1 & H2 & ->). apply get_cell_inv in H1. destruct H1 as (-> & -> & E).
+    destruct (UB c E) as (u & B). rewrite B in H2.
+    destruct ((vu <=? u) && is_inv v) eqn:C.
+    - apply andb_true_iff in C. destruct C as [_ C]. apply is_inv_true in C. subst v.
+      unfold bind_var in H2. apply bind_inv in H2. destruct H2 as (c' & t3 & g4 & g5 & H3 & H4 & ->). apply get_cell_inv in H3. destruct H3 as (-> & -> & E').
+      rewrite E in E'. inversion E'; subst c'. rewrite B in H4. inversion H4; subst. clear H4.
+      destruct (respects_bind t va c u b I E B CB) as [I' RR]. split; [exact I' |]. split; [split; [intros R; apply RR; exact R | apply keeps_set_value] |].
+      intros R. cbn [app]. rewrite vrel_inv_eqv. rewrite RR. split; [intros [[_ Q] _]; exact Q | intros Q; split; [split; assumption | intros x y []]].
+    - apply push_outlives_inv in H2. destruct H2 as (-> & ->). cbn [app]. apply lstep_push. exact I.
+  Qed.
+
+  Lemma lstep_sym v a b t t' gs : lstep (invert v) b a t t' gs -> lstep v a b t t' gs.
+  Proof. intros (I & M & H). split; [exact I |]. split; [exact M |]. intros R. rewrite (H R). apply vrel_invert. Qed.
+
+  Lemma lstep_eqv v a0 b0 a b t t' gs :
+    (respects t -> eqv (ρ a0) (ρ a)) -> (respects t -> eqv (ρ b0) (ρ b)) -> lstep v a b t t' gs -> lstep v a0 b0 t t' gs.
+  Proof.
+    intros EA EB (I & M & H). split; [exact I |]. split; [exact M |]. intros R. rewrite (H R). symmetry. apply vrel_eqv; auto.
+  Qed.
+
+  Lemma rel_lt_u v a0 b0 t r t' gs :
+    closed_ltu a0 = true -> closed_ltu b0 = true -> ltinv t ->
+    rel_lt v a0 b0 t = (Done r, t', gs) -> lstep v a0 b0 t t' gs.
+  Proof.
+    intros CA CB I H. unfold rel_lt in H. rewrite bind_get_table' in H.
+    destruct (norm_lt t a0 CA I) as [EA NA]. destruct (norm_lt t b0 CB I) as [EB NB].
+    apply (lstep_eqv v a0 b0 _ _ t t' gs EA EB). clear EA EB.
+    set (a := shallow1 t a0) in *. set (b := shallow1 t b0) in *. clearbody a b. unfold rel_lt_norm in H.
+    assert (RIG : forall x, closed_lt x = true -> match lcls_of x with LPh _ | LStatic | LErased => True | _ => False end).
+    { intros x Hx. destruct (closed_lt_inv x Hx) as [-> | [(u & i & ->) | ->]]; exact Logic.I. }
+    assert (PUSH : (if tm_eqb a b then ret tt else push_outlives v a b) t = (Done r, t', gs) -> lstep v a b t t' gs).
+    { intros H'. destruct (tm_eqb a b) eqn:Q.
+      - apply tm_eqb_eq in Q. subst b. apply ret_inv in H'. destruct H' as (_ & -> & ->). apply lstep_same; [exact I | intros _; apply vrel_refl].
+      - apply push_outlives_inv in H'. destruct H' as (-> & ->). apply lstep_push. exact I. }
+    destruct NA as [CLa | (va & -> & UA)]; destruct NB as [CLb | (vb & -> & UB)].
+    - (* two closed lifetimes *)
+      pose proof (RIG a CLa) as Ra. pose proof (RIG b CLb) as Rb.
+      destruct (closed_lt_inv a CLa) as [-> | [(ua & ia & ->) | ->]]; destruct (closed_lt_inv b CLb) as [-> | [(ub & ib & ->) | ->]];
+        cbn [lcls_of] in H; try (apply PUSH; exact H);
+        apply ret_inv in H; destruct H as (_ & -> & ->); apply lstep_same; try exact I; intros _; apply vrel_refl.
+    - (* closed / unknown *)
+      apply lstep_sym.
+      destruct (closed_lt_inv a CLa) as [-> | [(ua & ia & ->) | ->]]; cbn [lcls_of lt_var] in H; eapply unify_lt_u; eauto.
+    - (* unknown / closed *)
+      destruct (closed_lt_inv b CLb) as [-> | [(ub & ib & ->) | ->]]; cbn [lcls_of lt_var] in H; eapply unify_lt_u; eauto.
+    - (* unknown / unknown *)
+      cbn [lcls_of lt_var] in H. destruct (is_inv v) eqn:IV.
+      + apply is_inv_true in IV. subst v. unfold union_vars in H.
+        apply bind_inv in H. destruct H as (ca & t2 & g2 & g3 & H1 & H2 & ->). apply get_cell_inv in H1. destruct H1 as (-> & -> & Ea).
+        apply bind_inv in H2. destruct H2 as (cb & t3 & g4 & g5 & H3 & H4 & ->). apply get_cell_inv in H3. destruct H3 as (-> & -> & Eb).
+        destruct (UA ca Ea) as (ua & Ba). destruct (UB cb Eb) as (ub & Bb).
+        destruct (N.eqb_spec (ccls ca) (ccls cb)) as [Q | Q].
+        * apply ret_inv in H4. destruct H4 as (_ & -> & ->). apply lstep_same; [exact I |]. intros [_ RC]. apply vrel_inv_eqv. apply RC. exists ca, cb. auto.
+        * rewrite Ba, Bb in H4. inversion H4; subst. clear H4.
+          destruct (respects_merge t va vb ca cb ua ub (Unbound (N.min ua ub)) I Ea Ba Eb Bb ltac:(eauto)) as [I' RR].
+          split; [exact I' |]. split; [split; [intros R; apply RR; exact R | apply keeps_merge] |]. intros R. cbn [app]. rewrite vrel_inv_eqv, RR.
+          split; [intros [[_ Q'] _]; exact Q' | intros Q'; split; [split; assumption | intros x y []]].
+      + unfold unless_unioned in H.
+        apply bind_inv in H. destruct H as (ca & t2 & g2 & g3 & H1 & H2 & ->). apply get_cell_inv in H1. destruct H1 as (-> & -> & Ea).
+        apply bind_inv in H2. destruct H2 as (cb & t3 & g4 & g5 & H3 & H4 & ->). apply get_cell_inv in H3. destruct H3 as (-> & -> & Eb).
+        destruct (N.eqb_spec (ccls ca) (ccls cb)) as [Q | Q].
+        * apply ret_inv in H4. destruct H4 as (_ & -> & ->). apply lstep_same; [exact I |]. intros [_ RC].
+          assert (EV : eqv (ρ (lt_var va)) (ρ (lt_var vb))) by (apply RC; exists ca, cb; auto).
+          destruct EV as [E1 E2]. destruct v; cbn [vrel]; auto.
+        * apply push_outlives_inv in H4. destruct H4 as (-> & ->). cbn [app]. apply lstep_push. exact I.
+  Qed.
+
+  (** every unknown of [a] has a cell *)
+  Definition has_cells (t : table) (a : tm) : Prop := forall v, a = lt_var v -> exists c, get t v = Some c.
+
+  Lemma unify_lt_done v va b vu t c u : get t va = Some c -> cval c = Unbound u ->
+    exists r t' gs, unify_lifetime_var v va b vu t = (Done r, t', gs).
+  Proof.
+    intros E B. unfold unify_lifetime_var. rewrite bind_get_cell, E, B.
+    destruct ((vu <=? u) && is_inv v).
+    - unfold bind_var. rewrite bind_get_cell, E, B. eauto.
+    - rewrite push_outlives_eq. eauto.
+  Qed.
+
+  Lemma rel_lt_done v a0 b0 t :
+    closed_ltu a0 = true -> closed_ltu b0 = true -> has_cells t a0 -> has_cells t b0 -> ltinv t ->
+    exists r t' gs, rel_lt v a0 b0 t = (Done r, t', gs).
+  Proof.
+    intros CA CB HA HB I. unfold rel_lt. rewrite bind_get_table'.
+    assert (NF : forall x0, closed_ltu x0 = true -> has_cells t x0 ->
+               closed_lt (shallow1 t x0) = true \/ exists vx c u, shallow1 t x0 = lt_var vx /\ get t vx = Some c /\ cval c = Unbound u).
+    { intros x0 CX HX. destruct (closed_ltu_inv _ CX) as [CL | (vx & ->)].
+      - left. unfold shallow1. rewrite (probe_closed_lt t x0 CL). exact CL.
+      - destruct (HX vx eq_refl) as (c & E). unfold shallow1, lt_var. cbn [probe_tm]. rewrite E.
+        destruct (cval c) as [u | l] eqn:B; [right; exists vx, c, u; auto | left; exact (proj2 I vx c l E B)]. }
+    destruct (NF a0 CA HA) as [CLa | (va & ca & ua & -> & Ea & Ba)]; destruct (NF b0 CB HB) as [CLb | (vb & cb & ub & -> & Eb & Bb)]; unfold rel_lt_norm.
+    - destruct (closed_lt_inv _ CLa) as [-> | [(u1 & i1 & ->) | ->]]; destruct (closed_lt_inv _ CLb) as [-> | [(u2 & i2 & ->) | ->]]; cbn [lcls_of];
+        try (unfold ret; eauto);
+        match goal with |- context [if ?c then _ else _] => destruct c end; try (unfold ret; eauto); rewrite push_outlives_eq; eauto.
+    - destruct (closed_lt_inv _ CLa) as [-> | [(u1 & i1 & ->) | ->]]; cbn [lcls_of lt_var]; eapply unify_lt_done; eassumption.
+    - destruct (closed_lt_inv _ CLb) as [-> | [(u2 & i2 & ->) | ->]]; cbn [lcls_of lt_var]; eapply unify_lt_done; eassumption.
+    - cbn [lcls_of lt_var]. destruct (is_inv v).
+      + unfold union_vars. rewrite bind_get_cell, Ea, bind_get_cell, Eb. destruct (ccls ca =? ccls cb); [unfold ret; eauto |]. rewrite Ba, Bb. eauto.
+      + unfold unless_unioned. rewrite bind_get_cell, Ea, bind_get_cell, Eb. destruct (ccls ca =? ccls cb); [unfold ret; eauto |]. rewrite push_outlives_eq. eauto.
+  Qed.
+
+  (** ** Types *)
+
+  Variable adt_var : N -> list variance.
+  Variable fn_var : N -> list variance.
+  Variable arity : N -> nat.
+  Notation vc := (variance_constraints adt_var fn_var).
+
+  Fixpoint ufrag (t : tm) : bool :=
+    match t with
+    | Node h cs =>
+        match h with
+        | HScalar _ | HStr | HNever | HForeign _ | HPlaceholder _ _ => match cs with [] => true | _ => false end
+        | HRef _ => match cs with [l; x] => closed_ltu l && ufrag x | _ => false end
+        | HRaw _ | HSlice => match cs with [x] => ufrag x | _ => false end
+        | HTuple n => Nat.eqb (length cs) (N.to_nat n) && forallb ufrag cs
+        | HAdt id => Nat.eqb (length cs) (arity id) && forallb (fun c => closed_ltu c || ufrag c) cs
+        | _ => false
+        end
+    | _ => false
+    end.
+
+  Definition uterm (t : tm) : bool := closed_ltu t || ufrag t.
+
+  Lemma closed_ltu_kind a : closed_ltu a = true -> kind_of a = KLt.
+  Proof. intros H. destruct (closed_ltu_inv _ H) as [C | (v & ->)]; [apply closed_lt_kind; exact C | reflexivity]. Qed.
+
+  Lemma ufrag_kind a : ufrag a = true -> kind_of a = KTy.
+  Proof. destruct a as [| | h cs]; try discriminate. destruct h; try discriminate; reflexivity. Qed.
+
+  Lemma erase_ltu a : closed_ltu a = true -> erase a = Node HLStatic [].
+  Proof. intros H. destruct (closed_ltu_inv _ H) as [C | (v & ->)]; [apply erase_lt; exact C | reflexivity]. Qed.
+
+  Lemma erase_uty h cs : ufrag (Node h cs) = true -> erase (Node h cs) = Node h (map erase cs).
+  Proof. intros H. apply ufrag_kind in H. cbn [erase]. unfold is_lifetime. rewrite H. reflexivity. Qed.
+
+  Lemma ufrag_children h cs : ufrag (Node h cs) = true -> Forall (fun c => uterm c = true) cs.
+  Proof.
+    unfold uterm. destruct h; cbn [ufrag]; try discriminate; intros H.
+    all: try (destruct cs; [constructor | discriminate]).
+    - apply andb_true_iff in H. destruct H as [_ H]. rewrite forallb_forall in H. apply Forall_forall. exact H.
+    - apply andb_true_iff in H. destruct H as [_ H]. rewrite forallb_forall in H. apply Forall_forall.
+      intros x Hx. rewrite (H x Hx). apply orb_true_r.
+    - destruct cs as [| x [| y r]]; try discriminate. constructor; [| constructor]. rewrite H. apply orb_true_r.
+    - destruct cs as [| x [| y r]]; try discriminate. constructor; [| constructor]. rewrite H. apply orb_true_r.
+    - destruct cs as [| l [| x [| z r]]]; try discriminate. apply andb_true_iff in H. destruct H as [H1 H2].
+      constructor; [rewrite H1; reflexivity | constructor; [rewrite H2; apply orb_true_r | constructor]].
+  Qed.
+
+  Lemma ufrag_head_not_static h cs : ufrag (Node h cs) = true -> h <> HLStatic.
+  Proof. destruct h; try discriminate; intros _ E; discriminate E. Qed.
+
+  Lemma ufrag_class h cs : ufrag (Node h cs) = true ->
+    (structural_head h = true /\ tcls_of (Node h cs) = COther) \/ (exists u i, h = HPlaceholder u i /\ cs = []).
+  Proof.
+    destruct h; cbn [ufrag]; try discriminate; intros H; try (left; split; reflexivity).
+    right. destruct cs; [eauto | discriminate].
+  Qed.
+
+  Lemma ufrag_same_head_len h ca cb :
+    structural_head h = true -> ufrag (Node h ca) = true -> ufrag (Node h cb) = true -> length ca = length cb.
+  Proof.
+    destruct h; cbn [structural_head ufrag]; try discriminate; intros _ Ha Hb.
+    - apply andb_true_iff in Ha, Hb. destruct Ha as [Ha _], Hb as [Hb _]. apply Nat.eqb_eq in Ha, Hb. congruence.
+    - destruct ca, cb; try discriminate; reflexivity.
+    - apply andb_true_iff in Ha, Hb. destruct Ha as [Ha _], Hb as [Hb _]. apply Nat.eqb_eq in Ha, Hb. congruence.
+    - destruct ca as [| ? [| ? ?]], cb as [| ? [| ? ?]]; try discriminate; reflexivity.
+    - destruct ca as [| ? [| ? ?]], cb as [| ? [| ? ?]]; try discriminate; reflexivity.
+    - destruct ca as [| ? [| ? [| ? ?]]], cb as [| ? [| ? [| ? ?]]]; try discriminate; reflexivity.
+    - destruct ca, cb; try discriminate; reflexivity.
+    - destruct ca, cb; try discriminate; reflexivity.
+    - destruct ca, cb; try discriminate; reflexivity.
+  Qed.
+
+  Lemma probe_ufrag t a : ufrag a = true -> probe_tm t a = None.
+  Proof. destruct a as [| | h cs]; try discriminate. destruct h; try discriminate; reflexivity. Qed.
+
+  (** every lifetime unknown occurring in [a] has a cell in [t] *)
+  Definition ucells (t : table) : tm -> Prop :=
+    allsub (fun h => match h with HLInfer v => exists c, get t v = Some c | _ => True end).
+
+  Lemma ucells_keeps t t' a : keeps t t' -> ucells t a -> ucells t' a.
+  Proof. intros K. apply allsub_impl. intros h H. destruct h; try exact Logic.I. apply K. exact H. Qed.
+
+  Lemma ucells_children t h cs : ucells t (Node h cs) -> Forall (ucells t) cs.
+  Proof. intros H. apply allsub_node in H. apply H. Qed.
+
+  Lemma ucells_has_cells t a : ucells t a -> has_cells t a.
+  Proof. intros H v ->. apply allsub_node in H. apply H. Qed.
+
+  Definition tstep (v : variance) (a b : tm) (t t' : table) (gs : list tm) : Prop :=
+    ltinv t' /\ mono t t' /\ (respects t -> ((respects t' /\ sat_goals gs) <-> sat (vc v a b))).
+
+  Definition usem (v : variance) (a b : tm) (t : table) (r : out unit * table * list tm) : Prop :=
+    (erase a = erase b /\ exists t' gs, r = (Done tt, t', gs) /\ tstep v a b t t' gs)
+    \/ (erase a <> erase b /\ exists t' gs, r = (NoSol, t', gs)).
+
+  Lemma tstep_same v a t : ltinv t -> tstep v a a t t [].
+  Proof.
+    intros I. split; [exact I |]. split; [apply mono_refl |]. intros R. rewrite (vc_refl adt_var fn_var a v).
+    split; [intros _ p [] | intros _; split; [exact R | intros x y []]].
+  Qed.
+
+  Section LevelU.
+    Variable f : nat.
+    Hypothesis IH : forall v a b t, uterm a = true -> uterm b = true -> (depth a <= f)%nat -> ltinv t -> ucells t a -> ucells t b ->
+      usem v a b t (rel_garg (rel adt_var fn_var f) v a b t).
+
+    Lemma zip_u : forall ca cb vf i t,
+      Forall (fun c => uterm c = true) ca -> Forall (fun c => uterm c = true) cb -> length ca = length cb ->
+      Forall (fun c => (depth c <= f)%nat) ca -> ltinv t -> Forall (ucells t) ca -> Forall (ucells t) cb ->
+      (map erase ca = map erase cb /\ exists t' gs, zip_children (rel adt_var fn_var f) vf i ca cb t = (Done tt, t', gs)
+          /\ ltinv t' /\ mono t t'
+          /\ (respects t -> ((respects t' /\ sat_goals gs) <-> sat (vc_children adt_var fn_var vf i ca cb))))
+      \/ (map erase ca <> map erase cb /\ exists t' gs, zip_children (rel adt_var fn_var f) vf i ca cb t = (NoSol, t', gs)).
+    Proof.
+      induction ca as [| x r IHr]; intros cb vf i t Ha Hb Hl Hd I Ua Ub; destruct cb as [| y r']; try discriminate Hl.
+      - left. split; [reflexivity |]. exists t, []. split; [reflexivity |]. split; [exact I |]. split; [apply mono_refl |].
+        intros R. cbn [vc_children]. split; [intros _ p [] | intros _; split; [exact R | intros x y []]].
+      - apply Forall_cons_iff in Ha, Hb, Hd, Ua, Ub. destruct Ha as [Hax Har], Hb as [Hby Hbr], Hd as [Hdx Hdr], Ua as [Uax Uar], Ub as [Uby Ubr]. cbn [length] in Hl.
+        cbn [zip_children].
+        destruct (IH (vf i) x y t Hax Hby Hdx I Uax Uby) as [(E & t1 & g1 & R1 & I1 & M1 & Q1) | (E & t1 & g1 & R1)].
+        + assert (Uar1 : Forall (ucells t1) r) by (eapply Forall_impl; [| exact Uar]; intros z Hz; eapply ucells_keeps; [apply M1 | exact Hz]).
+          assert (Ubr1 : Forall (ucells t1) r') by (eapply Forall_impl; [| exact Ubr]; intros z Hz; eapply ucells_keeps; [apply M1 | exact Hz]).
+          destruct (IHr r' vf (S i) t1 Har Hbr (eq_add_S _ _ Hl) Hdr I1 Uar1 Ubr1) as [(E' & t2 & g2 & R2 & I2 & M2 & Q2) | (E' & t2 & g2 & R2)].
+          * left. split; [cbn [map]; congruence |]. exists t2, (g1 ++ g2). split.
+            -- rewrite (bind_done _ _ _ _ _ _ R1). cbn [zip_children] in R2. rewrite R2. reflexivity.
+            -- split; [exact I2 |]. split; [eapply mono_trans; eassumption |]. intros R. cbn [vc_children]. rewrite sat_app, sat_goals_app. split.
+               ++ intros (R2' & G1 & G2). pose proof (proj1 M2 R2') as R1'. split; [apply (Q1 R); auto | apply (Q2 R1'); auto].
+               ++ intros (S1 & S2). destruct (proj2 (Q1 R) S1) as [R1' G1]. destruct (proj2 (Q2 R1') S2) as [R2' G2]. auto.
+          * right. split; [cbn [map]; intros Q; inversion Q; contradiction |]. exists t2, (g1 ++ g2).
+            rewrite (bind_done _ _ _ _ _ _ R1). cbn [zip_children] in R2. rewrite R2. reflexivity.
+        + right. split; [cbn [map]; intros Q; inversion Q; contradiction |]. exists t1, g1.
+          rewrite (bind_nosol _ _ _ _ _ R1). reflexivity.
+    Qed.
+
+    Lemma node_erase_u h ca h' cb :
+      ufrag (Node h ca) = true -> ufrag (Node h' cb) = true ->
+      (erase (Node h ca) = erase (Node h' cb) <-> h = h' /\ map erase ca = map erase cb).
+    Proof.
+      intros Ha Hb. rewrite (erase_uty _ _ Ha), (erase_uty _ _ Hb). split.
+      - intros Q. inversion Q. split; reflexivity.
+      - intros [-> ->]. reflexivity.
+    Qed.
+
+    Lemma rel_ty_u v a b t :
+      ufrag a = true -> ufrag b = true -> (depth a <= S f)%nat -> ltinv t -> ucells t a -> ucells t b ->
+      usem v a b t (rel_ty adt_var fn_var f (rel adt_var fn_var f) v a b t).
+    Proof.
+      intros Ha Hb Hd I Ua Ub. unfold rel_ty. rewrite bind_get_table'. unfold shallow_ty.
+      rewrite (probe_ufrag t a Ha), (probe_ufrag t b Hb). unfold rel_ty_norm.
+      destruct (tm_eqb a b) eqn:Eab.
+      { apply tm_eqb_eq in Eab. subst b. left. split; [reflexivity |]. exists t, []. split; [reflexivity | apply tstep_same; exact I]. }
+      assert (Nab : a <> b). { intros Q. apply tm_eqb_eq in Q. congruence. }
+      destruct a as [| | ha ca]; try discriminate Ha. destruct b as [| | hb cb]; try discriminate Hb.
+      assert (NS : forall gs, erase (Node ha ca) <> erase (Node hb cb) -> usem v (Node ha ca) (Node hb cb) t (NoSol, t, gs)).
+      { intros gs Q. right. split; [exact Q | eauto]. }
+      destruct (head_eq_dec ha hb) as [Eh | Nh].
+      - subst hb. destruct (ufrag_class _ _ Ha) as [(Sa & Ta) | (u & i & Q & Q')].
+        + destruct (ufrag_class _ _ Hb) as [(_ & Tb) | (u & i & Q & _)]; [| subst ha; discriminate Sa].
+          rewrite Ta, Tb, Sa. unfold head_eqb. destruct (head_eq_dec ha ha) as [_ | Q]; [| contradiction]. cbn [andb].
+          pose proof (ufrag_same_head_len _ _ _ Sa Ha Hb) as Hl.
+          assert (Da : Forall (fun c => (depth c <= f)%nat) ca).
+          { eapply Forall_impl; [| apply (depth_children ha ca)]. cbn beta. intros c Hc. lia. }
+          destruct (zip_u ca cb (child_variance adt_var fn_var ha v) 0%nat t (ufrag_children _ _ Ha) (ufrag_children _ _ Hb) Hl Da I (ucells_children _ _ _ Ua) (ucells_children _ _ _ Ub))
+            as [(E & t' & gs & R & I' & M' & Q') | (E & t' & gs & R)].
+          * left. split; [apply node_erase_u; auto |]. exists t', gs. split; [exact R |]. split; [exact I' |]. split; [exact M' |].
+            intros R0. rewrite (Q' R0). rewrite vc_node. replace (is_lifetime (Node ha ca)) with false
+              by (symmetry; unfold is_lifetime; rewrite (ufrag_kind _ Ha); reflexivity).
+            rewrite (vc_children_ext adt_var fn_var (fun i => xform v (position_variance adt_var fn_var ha (length ca) i)) (child_variance adt_var fn_var ha v)); [reflexivity |].
+            intros j _. symmetry. apply child_variance_spec. exact Sa.
+          * right. split; [intros Q; apply node_erase_u in Q; auto; destruct Q; contradiction | eauto].
+        + subst ha ca. destruct (ufrag_class _ _ Hb) as [(Sb & _) | (u' & i' & _ & Q)]; [discriminate Sb |]. subst cb. contradiction Nab. reflexivity.
+      - assert (Q : erase (Node ha ca) <> erase (Node hb cb)).
+        { intros Q. apply node_erase_u in Q; auto. destruct Q. contradiction. }
+        destruct (ufrag_class _ _ Ha) as [(Sa & Ta) | (u & i & -> & ->)]; destruct (ufrag_class _ _ Hb) as [(Sb & Tb) | (u' & i' & -> & ->)].
+        + rewrite Ta, Tb, Sa. unfold head_eqb. destruct (head_eq_dec ha hb); [contradiction |]. cbn [andb]. apply NS. exact Q.
+        + rewrite Ta. cbn [tcls_of]. apply NS. exact Q.
+        + rewrite Tb. cbn [tcls_of]. apply NS. exact Q.
+        + cbn [tcls_of]. apply NS. exact Q.
+    Qed.
+  End LevelU.
+
+  Lemma rel_garg_u : forall f v a b t,
+    uterm a = true -> uterm b = true -> (depth a <= f)%nat -> ltinv t -> ucells t a -> ucells t b ->
+    usem v a b t (rel_garg (rel adt_var fn_var f) v a b t).
+  Proof.
+    induction f as [| f IH]; intros v a b t Ha Hb Hd I Ua Ub; [pose proof (depth_pos a); lia |].
+    unfold rel_garg. unfold uterm in Ha, Hb. apply orb_true_iff in Ha, Hb.
+    destruct Ha as [Ha | Ha], Hb as [Hb | Hb].
+    - rewrite (closed_ltu_kind _ Ha), (closed_ltu_kind _ Hb). cbn [kind_eqb rel].
+      rewrite (closed_ltu_kind _ Ha), (closed_ltu_kind _ Hb).
+      left. split; [rewrite (erase_ltu _ Ha), (erase_ltu _ Hb); reflexivity |].
+      destruct (rel_lt_done v a b t Ha Hb (ucells_has_cells _ _ Ua) (ucells_has_cells _ _ Ub) I) as ([] & t' & gs & R).
+      exists t', gs. split; [exact R |]. destruct (rel_lt_u v a b t tt t' gs Ha Hb I R) as (I' & M' & Q').
+      split; [exact I' |]. split; [exact M' |]. intros R0. rewrite (Q' R0).
+      assert (VC : vc v a b = lifetime_requirements v a b).
+      { destruct a as [| | h cs]; try discriminate Ha. destruct b as [| | h' cs']; try discriminate Hb.
+        rewrite vc_node. unfold is_lifetime. rewrite (closed_ltu_kind _ Ha). reflexivity. }
+      rewrite VC. symmetry. apply sat_lifetime_requirements.
+    - rewrite (closed_ltu_kind _ Ha), (ufrag_kind _ Hb). cbn [kind_eqb]. right. split; [| exists t, []; reflexivity].
+      rewrite (erase_ltu _ Ha). destruct b as [| | hb cb]; try discriminate Hb. rewrite (erase_uty _ _ Hb).
+      intros Q. inversion Q as [Q0]. symmetry in Q0. revert Q0. apply (ufrag_head_not_static _ _ Hb).
+    - rewrite (ufrag_kind _ Ha), (closed_ltu_kind _ Hb). cbn [kind_eqb]. right. split; [| exists t, []; reflexivity].
+      rewrite (erase_ltu _ Hb). destruct a as [| | ha ca]; try discriminate Ha. rewrite (erase_uty _ _ Ha).
+      intros Q. inversion Q as [Q0]. revert Q0. apply (ufrag_head_not_static _ _ Ha).
+    - rewrite (ufrag_kind _ Ha), (ufrag_kind _ Hb). cbn [kind_eqb rel].
+      rewrite (ufrag_kind _ Ha), (ufrag_kind _ Hb). apply rel_ty_u; assumption.
+  Qed.
+
+  (** [relate] drops trivial SUBTYPE goals only *)
+  Lemma sat_goals_retain t gs : sat_goals (retain_goals t gs) <-> sat_goals gs.
+  Proof.
+    unfold sat_goals, retain_goals. split; intros H x y Hin.
+    - apply H. apply filter_In. split; [exact Hin | reflexivity].
+    - apply filter_In in Hin. apply H. apply Hin.
+  Qed.
+
+  Lemma relate_u fuel v a b t :
+    ufrag a = true -> ufrag b = true -> (depth a <= fuel)%nat -> ltinv t -> ucells t a -> ucells t b ->
+    (erase a = erase b /\ exists gs t', relate adt_var fn_var fuel v a b t = (Done gs, t')
+        /\ ltinv t' /\ mono t t' /\ (respects t -> ((respects t' /\ sat_goals gs) <-> sat (vc v a b))))
+    \/ (erase a <> erase b /\ relate adt_var fn_var fuel v a b t = (NoSol, t)).
+  Proof.
+    intros Ha Hb Hd I Ua Ub.
+    assert (Ca : uterm a = true) by (unfold uterm; rewrite Ha; apply orb_true_r).
+    assert (Cb : uterm b = true) by (unfold uterm; rewrite Hb; apply orb_true_r).
+    pose proof (rel_garg_u fuel v a b t Ca Cb Hd I Ua Ub) as H.
+    unfold rel_garg in H. rewrite (ufrag_kind _ Ha), (ufrag_kind _ Hb) in H. cbn [kind_eqb] in H.
+    unfold relate. destruct H as [(E & t' & gs & R & I' & M' & Q') | (E & t' & gs & R)]; rewrite R.
+    - left. split; [exact E |]. exists (retain_goals t' gs), t'. split; [reflexivity |]. split; [exact I' |]. split; [exact M' |].
+      intros R0. rewrite sat_goals_retain. exact (Q' R0).
+    - right. split; [exact E |]. destruct t; reflexivity.
+  Qed.
 End Model.
+
+(** ** The property theorems for types with lifetime unknowns *)
+
+Section Final.
+  Variable adt_var : N -> list variance.
+  Variable fn_var : N -> list variance.
+  Variable arity : N -> nat.
+
+  (** success iff the lifetime-erased structures agree (any variance; stated at [Covariant]) *)
+  Lemma relate_cov_shape_unknowns_lemma fuel a b t :
+    ufrag arity a = true -> ufrag arity b = true -> (depth a <= fuel)%nat -> ltinv t -> ucells t a -> ucells t b ->
+    ((exists gs t', relate adt_var fn_var fuel Covariant a b t = (Done gs, t')) <-> erase a = erase b).
+  Proof.
+    intros Ha Hb Hd I Ua Ub.
+    destruct (relate_u unit (fun _ _ => True) (fun _ => Logic.I) (fun _ _ _ _ _ => Logic.I) (fun _ => tt)
+                adt_var fn_var arity fuel Covariant a b t Ha Hb Hd I Ua Ub) as [(E & gs & t' & R & _) | (E & R)].
+    - split; [intros _; exact E | intros _; exists gs, t'; exact R].
+    - split; [intros (gs & t' & R'); rewrite R in R'; discriminate R' | intros Q; contradiction].
+  Qed.
+
+  (** In every preorder model of the lifetimes that respects the table before the call: the
+      model respects the table after the call and satisfies the returned goals, iff it
+      satisfies the requirements dictated by variance.  Every model of the resulting table is
+      a model of the initial one, and the resulting table is again well formed (so calls
+      compose). *)
+  Lemma relate_cov_constraints_unknowns_lemma fuel a b t gs t' :
+    ufrag arity a = true -> ufrag arity b = true -> (depth a <= fuel)%nat -> ltinv t -> ucells t a -> ucells t b ->
+    relate adt_var fn_var fuel Covariant a b t = (Done gs, t') ->
+    ltinv t' /\
+    forall (D : Type) (le : D -> D -> Prop), (forall x, le x x) -> (forall x y z, le x y -> le y z -> le x z) ->
+    forall ρ : tm -> D,
+      (respects D le ρ t' -> respects D le ρ t)
+      /\ (respects D le ρ t ->
+           ((respects D le ρ t' /\ sat_goals D le ρ gs) <-> sat D le ρ (variance_constraints adt_var fn_var Covariant a b))).
+  Proof.
+    intros Ha Hb Hd I Ua Ub R. split.
+    - destruct (relate_u unit (fun _ _ => True) (fun _ => Logic.I) (fun _ _ _ _ _ => Logic.I) (fun _ => tt)
+                  adt_var fn_var arity fuel Covariant a b t Ha Hb Hd I Ua Ub) as [(E & gs0 & t0 & R0 & I0 & _) | (E & R0)];
+        rewrite R0 in R; inversion R; subst; exact I0.
+    - intros D le Hr Ht ρ.
+      destruct (relate_u D le Hr Ht ρ adt_var fn_var arity fuel Covariant a b t Ha Hb Hd I Ua Ub) as [(E & gs0 & t0 & R0 & I0 & M0 & Q0) | (E & R0)];
+        rewrite R0 in R; inversion R; subst. split; [apply M0 | exact Q0].
+  Qed.
+End Final.
+
+(** Non-vacuity: four lifetime unknowns ['?0 .. '?3] (unbound, universe 0);
+    [&'?0 (Inv<'?1>, Contra<&'?2 u32>)] against [&'?3 (Inv<'static>, Contra<&'!1_0 u32>)] and against
+    [&'?3 (Inv<'?2>, Contra<&'!1_0 u32>)], [Inv] invariant and [Contra] contravariant in their
+    parameter.  All hypotheses of the theorems hold; the first call binds ['?1 := 'static], the
+    second one unions ['?1] and ['?2]; both return the two outlives goals of the other positions,
+    while [variance_constraints] has four entries. *)
+Definition exu_adt_var (id : N) : list variance :=
+  match id with 0 => [Covariant] | 1 => [Contravariant] | _ => [Invariant] end.
+Definition exu_table : table :=
+  snd (new_variable 0 (snd (new_variable 0 (snd (new_variable 0 (snd (new_variable 0 empty_table))))))).
+Definition exu_a : tm :=
+  ex_ref (lt_var 0) (Node (HTuple 2) [Node (HAdt 2) [lt_var 1]; Node (HAdt 1) [ex_ref (lt_var 2) ex_u32]]).
+Definition exu_b (l : tm) : tm :=
+  ex_ref (lt_var 3) (Node (HTuple 2) [Node (HAdt 2) [l]; Node (HAdt 1) [ex_ref (ex_ph 0) ex_u32]]).
+
+Lemma exu_ltinv : ltinv exu_table.
+Proof.
+  split.
+  - intros v w c c'. unfold get. cbn.
+    destruct (N.to_nat v) as [| [| [| [| n]]]]; destruct (N.to_nat w) as [| [| [| [| m]]]]; cbn;
+      intros E1 E2; try (destruct n; discriminate E1); try (destruct m; discriminate E2);
+      inversion E1; inversion E2; subst; cbn; intros Q; try discriminate Q; reflexivity.
+  - intros v c l. unfold get. cbn.
+    destruct (N.to_nat v) as [| [| [| [| n]]]]; cbn; intros E1; try (destruct n; discriminate E1);
+      inversion E1; subst; cbn; intros Q; discriminate Q.
+Qed.
+
+Example relate_cov_unknowns_nonvacuous :
+  let a := exu_a in
+  let b1 := exu_b (Node HLStatic []) in
+  let b2 := exu_b (lt_var 2) in
+  ufrag ex_arity a = true /\ ufrag ex_arity b1 = true /\ ufrag ex_arity b2 = true /\ (depth a <= 20)%nat
+  /\ ltinv exu_table /\ ucells exu_table a /\ ucells exu_table b1 /\ ucells exu_table b2
+  /\ erase a = erase b1
+  /\ relate exu_adt_var (fun _ => []) 20 Covariant a b1 exu_table
+     = (Done [outlives_goal (lt_var 0) (lt_var 3); outlives_goal (ex_ph 0) (lt_var 2)],
+        mktable [mkcell 0 (Unbound 0); mkcell 1 (Bound (Node HLStatic [])); mkcell 2 (Unbound 0); mkcell 3 (Unbound 0)] [0; 1; 2; 3] 0)
+  /\ variance_constraints exu_adt_var (fun _ => []) Covariant a b1
+     = [(lt_var 0, lt_var 3); (lt_var 1, Node HLStatic []); (Node HLStatic [], lt_var 1); (ex_ph 0, lt_var 2)]
+  /\ relate exu_adt_var (fun _ => []) 20 Covariant a b2 exu_table
+     = (Done [outlives_goal (lt_var 0) (lt_var 3); outlives_goal (ex_ph 0) (lt_var 2)],
+        mktable [mkcell 0 (Unbound 0); mkcell 1 (Unbound 0); mkcell 1 (Unbound 0); mkcell 3 (Unbound 0)] [0; 1; 2; 3] 0).
+Proof.
+  cbv zeta. split; [reflexivity |]. split; [reflexivity |]. split; [reflexivity |]. split; [vm_compute; lia |].
+  split; [exact exu_ltinv |].
+  split; [cbn; repeat split; eexists; reflexivity |].
+  split; [cbn; repeat split; eexists; reflexivity |].
+  split; [cbn; repeat split; eexists; reflexivity |].
+  split; [reflexivity |]. split; [vm_compute; reflexivity |]. split; [vm_compute; reflexivity |]. vm_compute. reflexivity.
+Qed.
